@@ -134,7 +134,7 @@ def main():
             add(["con", "data", {"c": str(tag), "f": [{"l": [], "indef": indef}, {"m": [], "indef": indef}], "indef": indef}], kind="data-enc")
     for b in names:
         add(["builtin", b], kind="builtins")
-    for i in range(1500 if quick else 40000):
+    for i in range(6000 if quick else 40000):
         v = (1, 1, 0) if i % 3 else (1, 0, 0)
         add(G.gen_term(rng, 2 + rng.below(50), names, 0, allow_constr=(v == (1, 1, 0)), bls=(i % 7 == 0), encodings=True), v)
     for v in [(0, 0, 0), (1, 0, 0), (2, 3, 4), (100, 2000, 30000)]:
@@ -187,7 +187,7 @@ def main():
     # compiled by the working tree and their bytes re-encoded through every form
     import harvest
 
-    progs = harvest.compiled_hexes(limit=150 if quick else 2000)
+    progs = harvest.compiled_hexes(limit=400 if quick else 2000)
     rjobs = [{"id": i, "op": "recode", "hex": hx} for i, hx in enumerate(progs)]
     rres = common.run_jobs("uplc-run", rjobs)
     for j in rjobs:
@@ -213,7 +213,7 @@ def main():
     canon_long = bytes([0x5F, 0x58, 0x40]) + b"\xab" * 64 + bytes([0x46]) + b"\xab" * 6 + b"\xff"
     foreign_long = bytes([0x58, 0x46]) + b"\xab" * 70
     carriers = [["con", "data", {"b": "ab" * 70}], ["app", ["lam", ["var", 1]], ["con", "data", {"b": "ab" * 70}]], ["delay", ["con", "data", {"b": "ab" * 70}]]]
-    plain = [G.gen_term(rng, 2 + rng.below(20), names, 0) for _ in range(40 if quick else 600)]
+    plain = [G.gen_term(rng, 2 + rng.below(20), names, 0) for _ in range(150 if quick else 600)]
     cres = common.run_jobs("uplc-run", [{"id": i, "op": "codec", "term": t, "version": [1, 1, 0]} for i, t in enumerate(carriers + plain)])
     for i, t in enumerate(carriers + plain):
         r = cres.get(i, {})
